@@ -84,7 +84,7 @@ def is_pure(e, pure):
 
     def f(n):
         k = n["k"]
-        if k in ("println", "dbg", "assign", "while"):
+        if k in ("println", "dbg", "assign", "while", "break", "continue"):
             ok[0] = False
         elif k == "call":
             c = n["f"]
@@ -105,6 +105,47 @@ def local_shadows_function(e, prog):
             r[0] = True
     R.walk(e, f)
     return r[0]
+
+
+def nested_binders(prog):
+    """Binder ids of lets / pattern / loop / parameter variables that live inside a nested block (not at top level)."""
+    out = set()
+
+    def visit(e, depth):
+        if isinstance(e, list):
+            for x in e:
+                visit(x, depth)
+            return
+        k = e["k"]
+        if depth > 0 and k == "let":
+            out.add(e["id"])
+        if k in ("for", "match") and "id" in e:
+            out.add(e["id"])
+        for key in ("e", "c", "l", "r", "s", "f", "it"):
+            v = e.get(key)
+            if isinstance(v, dict):
+                visit(v, depth)
+        for key in ("args", "es"):
+            for x in e.get(key, []) or []:
+                visit(x, depth)
+        for key in ("t", "b", "some", "none", "body"):
+            v = e.get(key)
+            if isinstance(v, list):
+                visit(v, depth + 1)
+        if k == "if" and isinstance(e.get("e"), list):
+            visit(e["e"], depth + 1)
+    visit(prog, 0)
+    return out
+
+
+def uses_any(e, binders):
+    hit = [False]
+
+    def f(n):
+        if n["k"] == "var" and n.get("b") in binders:
+            hit[0] = True
+    R.walk(e, f)
+    return hit[0]
 
 
 def has_var(e):
@@ -226,8 +267,13 @@ def search(ctx, exe, progs, per_prog):
         ctx.rng.shuffle(nodes)
         # selections that contain binders of their own (match patterns, closure parameters) first: free-variable
         # analysis has to get their scopes right
-        nodes.sort(key=lambda x: 0 if x[2]["k"] in ("match", "fun") else 1)
-        for st, en, e in nodes[:per_prog]:
+        prio = [x for x in nodes if x[2]["k"] in ("match", "fun")][:max(2, per_prog // 4)]
+        nb = nested_binders(prog)
+        prio += [x for x in nodes if uses_any(x[2], nb) and not any(x is y for y in prio)][:max(3, per_prog // 2)]
+        rest = [x for x in nodes if not any(x is y for y in prio)]
+        # expressions inside else / match-arm / loop blocks that use a block-local binding next (the insertion point
+        # of the new `let` has to be inside that block)
+        for st, en, e in prio + rest[:per_prog - len(prio)]:
             for cmd in ("extract-variable", "extract-function"):
                 jobs.append((cmd, src, st, en, R.FRESH))
                 meta.append({"src": src, "st": st, "en": en, "kind": e["k"], "cmd": cmd, "var": has_var(e),
@@ -297,10 +343,10 @@ def run(ctx):
         return
     rng = ctx.rng
     fast = R.hook_supported(exe)
-    n = (300 if ctx.thorough else 80) if fast else (50 if ctx.thorough else 6)
+    n = (300 if ctx.thorough else 60) if fast else (50 if ctx.thorough else 6)
     progs = [R.gen_program(rng, size=6, features=FEATURES) for _ in range(n)]
     model_tie(ctx, exe, progs + [R.gen_program(rng, size=6, features=R.MODEL_FEATURES) for _ in range(n // 2)])
-    search(ctx, exe, progs, (10 ** 6 if ctx.thorough else 8) if fast else 16)
+    search(ctx, exe, progs, (10 ** 6 if ctx.thorough else 14) if fast else 16)
 
 
 def replay(ctx, rp):
